@@ -5,15 +5,16 @@ LEVEL = "proof"
 TRUSTED_BASE = [
     "Coq 8.16.1 kernel incl. vm_compute (used only for the _refuted witnesses and the Examples); no native_compute",
     "axioms: none (every T_C18_* theorem prints 'Closed under the global context')",
-    "hand-written Gallina model coq/ArchModel.v part 1 of generic_container.h, generic_set.h, generic_map.h, SerializeFixedSizeArray, types/std/{vector,forward_list,valarray,queue,stack,bitset,optional,memory,pair}.h, tied to /repo by this correspondence run on RapidJSON, MsgPack and CSV archives",
+    "hand-written Gallina model coq/ArchModel.v part 1 of generic_container.h, generic_set.h, generic_map.h, SerializeFixedSizeArray, types/std/{vector,forward_list,valarray,queue,stack,bitset,optional,memory,pair}.h, tied to /repo by this correspondence run on RapidJSON, MsgPack, CSV and pugixml (XML) archives",
+    "XML is the instance xml_arch of the model: text leaves converted per target type, a child-less element opens as an empty scope, members = items (named value / array / object by the encoder, as by the library's writer); documents restricted to element-name keys, canonical numeric text (scalar roots included since A01 was repaired by /repo b0f5582)",
     "archive abstraction: an array scope delivers its element documents one per Serialize call and reports an estimated size; an object scope delivers its keys and loads by key (first member with that key)",
     "extraction: ExtrOcamlBasic only; N/Z/positive/nat stay extracted inductives",
-    "trusted glue: coq/ArchCodec.v (value syntax <-> typed values, catalogue), ml/glue.ml, ml/arch_driver.ml, harness/drv_arch.cpp (document encoders for JSON/MsgPack/CSV, value builders/printers), harness/common.h, props/arch_common.py",
+    "trusted glue: coq/ArchCodec.v (value syntax <-> typed values, catalogue), ml/glue.ml, ml/arch_driver.ml, harness/drv_arch.cpp (document encoders for JSON/MsgPack/CSV/XML, value builders/printers), harness/common.h, props/arch_common.py",
     "modelled, not verified: std::vector/deque/list::resize, forward_list::emplace_after, std::map::try_emplace/find/operator[], set::insert with hint, priority_queue observed through its underlying container",
 ]
 ASSUMPTIONS = [
     "object documents have distinct keys (lookup by key = first member with that key)",
-    "string -> number conversion of object keys and CSV cells is exercised on canonical decimal text and on clearly non-numeric text only (the rest is the num family's subject)",
+    "string -> number conversion of object keys, CSV cells and XML text is exercised on canonical decimal text and on clearly non-numeric text only (the rest is the num family's subject)",
     "integers in documents are below 2^62 in magnitude",
 ]
 
@@ -56,13 +57,15 @@ def run(ctx, vlib):
                 failing.append(rec)
             elif len(diffs) < 20:
                 diffs.append(rec)
+    # MsgPack, JSON and XML through std::istream must give exactly what the memory load gives
+    n_stream = A.stream_vs_memory(vlib, impl, cases, oi, om, failing)
     known_lines, known_cases = A.known_findings("C18", vlib, impl)
     diffs += A.STALE_KNOWN
     failing = [f for f in failing if f["case"] not in known_cases]
     samples = [dict(case=cases[i], implementation=oi[i], model=om[i]) for i in range(0, min(len(cases), 4))]
-    return dict(evaluations=len(cases), distinct_nontrivial=nt, samples=samples, classes=classes, failing=failing,
+    return dict(evaluations=len(cases) + n_stream, distinct_nontrivial=nt, samples=samples, classes=classes, failing=failing,
                 diffs=diffs, known_lines=known_lines, exhaustive=False,
-                rule="every (prior size, data size) in {0..5}^2 for each of the 27 sized container types of a 44-type catalogue (vector deque list forward_list valarray queue stack priority_queue vector<bool> sets multisets maps multimaps incl. unordered, nested combinations) x {JSON, MsgPack, CSV where the type is an array of flat objects}, once with documents whose elements all load and once with defective positions (null, wrong type, out of range, wrong array size, missing/extra/reordered members, unconvertible keys) under random policies; fixed-size arrays, bitset, optional/unique_ptr/shared_ptr, pair, scalars with random sizes; the five map types x MapLoadMode {Clean, OnlyExistKeys, UpdateKeys} x {0..5}^2 key counts with overlapping key pools; non-trivial = distinct case whose prior target is not the default-constructed one or whose outcome is an exception",
+                rule="every (prior size, data size) in {0..5}^2 for each of the 27 sized container types of a 44-type catalogue (vector deque list forward_list valarray queue stack priority_queue vector<bool> sets multisets maps multimaps incl. unordered, nested combinations) x {JSON, MsgPack, XML (all types that have an XML root value), CSV where the type is an array of flat objects}, once with documents whose elements all load and once with defective positions (null, wrong type, out of range, wrong array size, missing/extra/reordered members, unconvertible keys) under random policies; fixed-size arrays, bitset, optional/unique_ptr/shared_ptr, pair, scalars with random sizes; the five map types x MapLoadMode {Clean, OnlyExistKeys, UpdateKeys} x {0..5}^2 key counts with overlapping key pools; every MsgPack / JSON / XML case a second time through std::istream (implementation only, must equal the memory load); non-trivial = distinct case whose prior target is not the default-constructed one or whose outcome is an exception",
                 broken="correspondence arch model (ArchModel.v part 1) vs generic_container.h/generic_map.h/generic_set.h/types/std (drv_arch popload)")
 
 
